@@ -44,6 +44,15 @@ Theorem C24_creation_needs_permission : forall e p r n,
 Proof. exact creation_needs_permission. Qed.
 Print Assumptions C24_creation_needs_permission.
 
+(* ... and that summary is faithful to the source: EVERY call site in EVERY handler that can
+   reach topic creation (gen/DispatchTable.v: creation_sites, regenerated from
+   cmd/broker/main.go on every run) is dominated by a produce / admin guard or receives a stored
+   produce verdict as its autoCreate argument. proofs/DispatchProofs.v has one lemma
+   creation_<Kind> per dispatch case, so the broken obligation names the handler. *)
+Theorem C24_creation_sites_guarded : forallb (sites_ok creation_sites) all_kinds = true.
+Proof. exact creation_all. Qed.
+Print Assumptions C24_creation_sites_guarded.
+
 (* the guard order the model relies on is the one in the source, case by case
    (gen/DispatchTable.v is regenerated from cmd/broker/main.go on every run; the
    per-case lemmas dispatch_<Kind> in proofs/DispatchProofs.v name the case that breaks) *)
